@@ -232,8 +232,46 @@ func c17First(c *core.Ctx) {
 	}
 }
 
+// c17Typed: EstimatedSize depends on the certificate type (an FEP certificate carries the proof and per-claim data); the
+// parameters that are measured and cut by limitCertSize must already carry the type the certificate will have.
+func c17Typed(c *core.Ctx, rule string) {
+	fn := c.MustFn(rule, "aggsender/flows", "baseFlow", "GetCertificateBuildParamsInternal")
+	if fn == nil {
+		return
+	}
+	sx := core.NewSymx()
+	n := 0
+	core.Instrs(fn, func(i ssa.Instruction) {
+		if !core.IsCallTo(i, "(*aggsender/flows.baseFlow).limitCertSize") {
+			return
+		}
+		n++
+		arg := sx.Of(i.(*ssa.Call).Call.Args[1])
+		f := arg.Fields["CertificateType"]
+		// the field must be part of the value at the time of the call: its store dominates the call
+		dominated := false
+		if al, ok := i.(*ssa.Call).Call.Args[1].(*ssa.Alloc); ok {
+			for _, r := range *al.Referrers() {
+				if fa, isFA := r.(*ssa.FieldAddr); isFA && fieldNameOf(fa) == "CertificateType" {
+					for _, r2 := range *fa.Referrers() {
+						if st, isSt := r2.(*ssa.Store); isSt && core.Dominates(st, i) {
+							dominated = true
+						}
+					}
+				}
+			}
+		}
+		c.Decide(arg.Op == "lit" && f != nil && f.String() == "certType" && dominated, rule, "flows.(*baseFlow).GetCertificateBuildParamsInternal#typed-before-cut", i.Pos(),
+			"the parameters handed to limitCertSize carry CertificateType ← certType")
+	})
+	if n == 0 {
+		c.Violate(rule, "flows.(*baseFlow).GetCertificateBuildParamsInternal#typed-before-cut", fn.Pos(), "limitCertSize is no longer called")
+	}
+}
+
 func c17Exit(c *core.Ctx) {
 	const rule = "C17-exit"
+	c17Typed(c, rule)
 	fn := c.MustFn(rule, "aggsender/flows", "baseFlow", "limitCertSize")
 	if fn == nil {
 		return
@@ -357,8 +395,95 @@ func c17Exit(c *core.Ctx) {
 // c17Gap: the touch/overlap test of BlockRange.Gap must not wrap at the ends of the uint64 range. Structural part:
 // the branch conditions of Gap compare endpoints directly or through the saturating getBlockMinusOne helper — no
 // +1 / -1 arithmetic on an endpoint inside a condition — and the helper subtracts only on the x > 0 edge.
+// c17SettledRange: the range VerifyBlockRangeGaps compares the new certificate against is what is really settled: the last
+// certificate's own [FromBlock, ToBlock] when it is not InError, and [0, FromBlock-1] (saturating) when it is — never an
+// inverted range, which Gap would read as "far apart".
+func c17SettledRange(c *core.Ctx, rule string) {
+	fn := c.MustFn(rule, "aggsender/flows", "baseFlow", "VerifyBlockRangeGaps")
+	if fn == nil {
+		return
+	}
+	sx := core.NewSymx()
+	var inErr *ssa.Call
+	var rangeCall *ssa.Call
+	core.Instrs(fn, func(i ssa.Instruction) {
+		cl, ok := i.(*ssa.Call)
+		if !ok {
+			return
+		}
+		switch {
+		case strings.HasSuffix(core.CallName(cl), "CertificateStatus).IsInError") && strings.Contains(sx.Of(cl).String(), "lastSentCertificate.Status"):
+			inErr = cl
+		case core.CallName(cl) == "aggsender/types.NewBlockRange" && strings.Contains(sx.Of(cl).String(), "lastSentCertificate"):
+			rangeCall = cl
+		}
+	})
+	construct := "flows.(*baseFlow).VerifyBlockRangeGaps#settled-range"
+	if inErr == nil || rangeCall == nil {
+		c.Undecide(rule, construct, fn.Pos(), "IsInError test or the last-settled NewBlockRange not found")
+		return
+	}
+	errSide := core.BoolEdges(fn, inErr, true)
+	onErrSide := func(lf phiLeaf) bool {
+		for _, ce := range lf.chain {
+			pb := ce.phi.Block().Preds[ce.idx]
+			for _, e := range errSide {
+				to := e.B.Succs[e.Succ]
+				if len(to.Preds) == 1 && (pb == to || to.Dominates(pb)) {
+					return true
+				}
+			}
+		}
+		return false
+	}
+	ok := len(errSide) > 0
+	var got []string
+	for k, want := range []struct{ err, other []string }{
+		{[]string{"const(0)"}, []string{"lastSentCertificate.FromBlock"}},
+		{[]string{"const(0)", "(lastSentCertificate.FromBlock - const(1))"}, []string{"lastSentCertificate.ToBlock"}},
+	} {
+		for _, lf := range phiLeaves(rangeCall.Call.Args[k]) {
+			t := sx.Of(lf.val).String()
+			side := want.other
+			if onErrSide(lf) {
+				side = want.err
+			}
+			got = append(got, fmt.Sprintf("arg%d:%s(err-side=%v)", k, t, onErrSide(lf)))
+			in := func(list []string) bool {
+				for _, w := range list {
+					if t == w {
+						return true
+					}
+				}
+				return false
+			}
+			hit := in(side)
+			if len(lf.chain) == 0 {
+				hit = in(want.err) && in(want.other) // not merged at all: the same value on both sides
+			}
+			// the zero initialisation that is overwritten on the other side travels through the Phi only from the error side
+			if !hit {
+				ok = false
+			}
+		}
+	}
+	// FromBlock-1 only behind FromBlock > 0
+	pos := core.TermEdges(fn, sx, func(s string, _ *core.Term) bool {
+		return s == "(lastSentCertificate.FromBlock > const(0))" || s == "(lastSentCertificate.FromBlock != const(0))"
+	}, true)
+	core.Instrs(fn, func(i ssa.Instruction) {
+		if bo, isB := i.(*ssa.BinOp); isB && sx.Of(bo).String() == "(lastSentCertificate.FromBlock - const(1))" {
+			if len(pos) == 0 || core.ReachableWithout(core.Entry(fn), pos, func(x ssa.Instruction) bool { return x == i }) != nil {
+				ok = false
+			}
+		}
+	})
+	c.Decide(ok, rule, construct, rangeCall.Pos(), fmt.Sprintf("last settled range = [FromBlock, ToBlock] of a certificate that is not InError, [0, FromBlock-1] (saturating) of one that is: %v", got))
+}
+
 func c17Gap(c *core.Ctx) {
 	const rule = "C17-gap"
+	c17SettledRange(c, rule)
 	sx := core.NewSymx()
 	g := c.MustFn(rule, "aggsender/types", "BlockRange", "Gap")
 	if g != nil {
@@ -427,8 +552,8 @@ func init() {
 		Rules: []Rule{
 			{ID: "C17-filter", Floor: 13, Run: c17Filter, Text: "[ORD]-style exact comparison analysis of the Range filters and precondition; literal field map"},
 			{ID: "C17-first", Floor: 3, Run: c17First, Text: "[PROV] every cut keeps the first block"},
-			{ID: "C17-gap", Floor: 3, Run: c17Gap, Text: "structure of the gap test: no wrapping arithmetic in conditions; saturating predecessor; empty iff touching (gap values not decided)"},
-			{ID: "C17-exit", Floor: 8, Run: c17Exit, Text: "[DOM] shrink step, loop variable, exit conditions; last-block clamp"},
+			{ID: "C17-gap", Floor: 4, Run: c17Gap, Text: "structure of the gap test: no wrapping arithmetic in conditions; saturating predecessor; empty iff touching (gap values not decided)"},
+			{ID: "C17-exit", Floor: 9, Run: c17Exit, Text: "[DOM] shrink step, loop variable, exit conditions; last-block clamp"},
 		},
 	})
 }
